@@ -157,7 +157,10 @@ func outcome(f func() error) string {
 }
 
 // doEnum runs the real enumeration on the tree described by n.
-// mode: "plain", "double" (Apply and Undo called twice each), "stop:k" (callback answers false at call k).
+// mode: "plain", "double" (Apply and Undo called twice each), "stop:k" (callback answers false at call k),
+// "collect" / "collect-rev" / "collect-mix": the callback only KEEPS the proposals; they are applied
+// (each followed by Undo) after Rearrange has returned, in enumeration order / in reverse order /
+// interleaved (even positions, then odd positions from the end).
 func doEnum(c *core.Ctx, mode string, n *core.N) {
 	t, err := core.Build(n)
 	if err != nil {
@@ -181,23 +184,57 @@ func doEnum(c *core.Ctx, mode string, n *core.N) {
 	}
 	var recs strings.Builder
 	calls := 0
+	collect := strings.HasPrefix(mode, "collect")
+	var kept []tree.Rearrangement
+	visit := func(re tree.Rearrangement) {
+		a := outcome(re.Apply)
+		if double && a == "ok" {
+			a = outcome(re.Apply)
+		}
+		wf1, d1, t1 := look(t)
+		u := outcome(re.Undo)
+		if double && u == "ok" {
+			u = outcome(re.Undo)
+		}
+		wf2, d2, t2 := look(t)
+		fmt.Fprintf(&recs, "%s;%s;%s;%s;%s;%s;%s;%s|", a, wf1, d1, t1, u, wf2, same(d2, before), same(t2, text0))
+	}
 	r := &tree.NNIRearranger{}
 	runOut := outcome(func() error {
 		r.Rearrange(t, func(re tree.Rearrangement) bool {
 			calls++
-			a := outcome(re.Apply)
-			if double && a == "ok" {
-				a = outcome(re.Apply)
+			if collect {
+				kept = append(kept, re)
+				return true
 			}
-			wf1, d1, t1 := look(t)
-			u := outcome(re.Undo)
-			if double && u == "ok" {
-				u = outcome(re.Undo)
-			}
-			wf2, d2, t2 := look(t)
-			fmt.Fprintf(&recs, "%s;%s;%s;%s;%s;%s;%s;%s|", a, wf1, d1, t1, u, wf2, same(d2, before), same(t2, text0))
+			visit(re)
 			return !(stop > 0 && calls >= stop)
 		})
+		if collect {
+			var order []int
+			switch mode {
+			case "collect-rev":
+				for i := len(kept) - 1; i >= 0; i-- {
+					order = append(order, i)
+				}
+			case "collect-mix":
+				for i := 0; i < len(kept); i += 2 {
+					order = append(order, i)
+				}
+				for i := len(kept) - 1; i >= 0; i-- {
+					if i%2 == 1 {
+						order = append(order, i)
+					}
+				}
+			default:
+				for i := range kept {
+					order = append(order, i)
+				}
+			}
+			for _, i := range order {
+				visit(kept[i])
+			}
+		}
 		return nil
 	})
 	wfF, dF, tF := look(t)
@@ -585,6 +622,10 @@ func pickMode(g *core.G, n *core.N) string {
 	switch g.Intn(8) {
 	case 0:
 		return "double"
+	case 2:
+		return "collect"
+	case 3:
+		return []string{"collect-rev", "collect-mix"}[g.Intn(2)]
 	case 1:
 		return fmt.Sprintf("stop:%d", 1+g.Intn(2*len(n.TipNames())))
 	}
